@@ -62,7 +62,8 @@ PROPS = {
                    "status on create of NodeRuntime as a real API server does) and a 400-line cloud stub; the agent is assembled from its real parts "
                    "without NewCRDV2's controller manager and timers (the 3 s flush, the 5 min job, the GC loop and the reconcile queue are history "
                    "actions), steps are sequential except flushadd, which runs an ADD inside the reporter's API write (the only owned interleaving; after every ADD the "
-                   "harness waits for the allocator's own goroutine, which cancels the pod's pending record after the reply); the listed finding "
+                   "harness waits until the allocator has withdrawn the pod's pending teardown record, which it does from its own goroutine after the reply - "
+                   "a condition on the agent's state polled by count, given up only when no goroutine beyond the process's idle set is left); the listed finding "
                    "C03-readd-stale-deleted is excused only when `deleted` was written in a step before the re-ADD's step; the kernel side of the agent GC runs against the "
                    "loopback device of a private netns; go map iteration inside the code under test is not owned by the seed",
         tests=[
